@@ -87,6 +87,11 @@ func (e *itEngine) Generate(seed uint64, tier string, run int) (json.RawMessage,
 			t = append([]rune(kernel.Pick(rg, itTexts)), genText(rg, cmapRunes(models[f].ft), maxLen)...)
 		}
 		op := ReuseOp{K: "split", F: f, Text: string(t)}
+		if rg.Chance(0.06) {
+			// well-nested paired delimiters, possibly very deep, with the script changing inside
+			t = genNested(rg)
+			op.Text, op.Flags = string(t), 1
+		}
 		op.S, op.E = genBounds(rg, len(t))
 		op.Dir = kernel.Pick(rg, validDirections)
 		op.Size = kernel.Pick(rg, sizes)
@@ -99,6 +104,45 @@ func (e *itEngine) Generate(seed uint64, tier string, run int) (json.RawMessage,
 		c.Ops = append(c.Ops, op)
 	}
 	return json.Marshal(c)
+}
+
+// genNested builds a text of properly nested brackets (depth up to 100) with strong runes of
+// several scripts at various depths.
+func genNested(r *kernel.Rand) []rune {
+	scripts := [][]rune{[]rune("abc"), []rune("αβγ"), []rune("бвг"), []rune("漢字"), []rune("ԱԲԳ")}
+	if r.Chance(0.1) {
+		scripts = append(scripts, []rune("אבג"))
+	}
+	depth := kernel.Pick(r, []int{1, 2, 3, 8, 31, 32, 33, 34, 40, 64, 65, 100})
+	open, cls := []rune("([{"), []rune(")]}")
+	var t []rune
+	strong := func() {
+		sc := kernel.Pick(r, scripts)
+		t = append(t, kernel.Pick(r, sc))
+	}
+	strong()
+	t = append(t, ' ')
+	kinds := make([]int, depth)
+	for i := range kinds {
+		kinds[i] = r.Intn(3)
+		if r.Chance(0.7) {
+			kinds[i] = kinds[0] // mostly one kind, as in the agent-free wild: ((((...))))
+		}
+		t = append(t, open[kinds[i]])
+		if r.Chance(0.15) {
+			strong()
+		}
+	}
+	strong()
+	for i := depth - 1; i >= 0; i-- {
+		t = append(t, cls[kinds[i]])
+		if r.Chance(0.1) {
+			strong()
+		}
+	}
+	t = append(t, ' ')
+	strong()
+	return t
 }
 
 // mayIgnoreFace mirrors the documented rule: spaces, controls, separators and default
@@ -262,7 +306,9 @@ func (w *itWorld) invariants(op *ReuseOp, in shaping.Input, text []rune, s, e in
 	}
 	var p bidi.Paragraph
 	p.SetString(string(text[s:e]), bidi.DefaultDirection(def))
+	singleBidiRun := false
 	if o, err := p.Order(); err == nil && o.NumRuns() > 0 {
+		singleBidiRun = o.NumRuns() == 1
 		rtl := make([]bool, e-s)
 		for k := 0; k < o.NumRuns(); k++ {
 			br := o.Run(k)
@@ -282,6 +328,40 @@ func (w *itWorld) invariants(op *ReuseOp, in shaping.Input, text []rune, s, e in
 		if o.NumRuns() > 1 {
 			w.out.Count("probe.bidi_mixed", 1)
 		}
+	}
+	if op.Flags&1 != 0 && singleBidiRun {
+		// (only where the range is one bidi run: scripts are resolved inside each bidi run, and a
+		// pair split between two of them is not one context)
+		// matched brackets follow their context: a closing bracket lies in a run of the same
+		// script as its opening counterpart (pairs computed here with an independent stack, on
+		// the requested range only, for texts generated as properly nested)
+		scriptAt := func(x int) language.Script {
+			for _, r := range runs {
+				if x >= r.RunStart && x < r.RunEnd {
+					return r.Script
+				}
+			}
+			return 0
+		}
+		var stack []int
+		for x := s; x < e; x++ {
+			switch text[x] {
+			case '(', '[', '{':
+				stack = append(stack, x)
+			case ')', ']', '}':
+				if len(stack) == 0 {
+					continue // its opener is outside the range
+				}
+				o := stack[len(stack)-1]
+				stack = stack[:len(stack)-1]
+				// (an opener before any strong rune sits in a run without a specific script: nothing
+				// to follow then)
+				if so, sc := scriptAt(o), scriptAt(x); so.Strong() && so != language.Unknown && so != sc {
+					return bad("brackets", "closing %q at %d is in a run of script %s but its opening counterpart at %d (nesting depth %d) in a run of script %s", text[x], x, sc, o, len(stack)+1, so)
+				}
+			}
+		}
+		w.out.Count("probe.nested_brackets_checked", 1)
 	}
 	vertical := di.Direction(op.Dir).IsVertical()
 	fm := w.fontmap(op)
